@@ -43,6 +43,26 @@ DESC = {
  "C18b": ("C18", "set_create_time replaces the whole Metadata value", "with_metadata(title) or set_language followed by set_create_time"),
  "C19b": ("C19", "av1C chroma_subsampling_x / _y bits swapped", "AV1 4:2:2 stream (subsampling_x != subsampling_y)"),
  "C20b": ("C20", "CLI trims the --title value", "a title with leading or trailing whitespace"),
+ "C01c": ("C01", "ADTS frame length masked to 12 bits", "an AAC frame whose ADTS frame length is 4096 or more (payload of 4089+ bytes)"),
+ "C02c": ("C02", "fast-start mdat size taken from a running byte counter fed with the submitted (Annex B) lengths", "fast start + H.264/H.265 input whose stored length differs from the submitted one (3-byte start codes)"),
+ "C03c": ("C03", "pts ticks = round(dts) + round(pts - dts) instead of round(pts)", "write_video_with_dts with timestamps off the tick grid and a composition offset that is not a whole number of ticks (e.g. 23.976 fps reordering)"),
+ "C04c": ("C04", "audio cumulative-duration rule measured from the first video sample", "audio starting later than the first video frame and an audio gap just inside the 32-bit cumulative bound"),
+ "C05c": ("C05", "first audio timestamp cached (get_or_insert) before payload validation", "a first audio call rejected for its payload at a later timestamp than the audio accepted afterwards"),
+ "C06c": ("C06", "statistics duration measured from the first video frame", "first video frame later than t = 0"),
+ "C07c": ("C07", "video configuration captured before the composition-offset check", "a first keyframe rejected for an overflowing composition offset, then a keyframe carrying different parameter sets"),
+ "C08c": ("C08", "non-fast-start emission merges the queues by PTS instead of using the schedule", "reordered video (pts != dts) interleaved with audio, compared across both layouts"),
+ "C09c": ("C09", "audio ticks accumulated from per-step rounded deltas", "six or more audio frames with a spacing that is not a whole number of ticks (1024/44100 s)"),
+ "C10c": ("C10", "init_segment() resets the fragment sequence number", "an init-segment request after at least one emitted fragment"),
+ "C11c": ("C11", "pending fragment base decode time captured before the monotonicity check", "a rejected write directly after a flush (empty queue), then accepted writes and a flush"),
+ "C12c": ("C12", "hevc_annexb_to_hvcc falls back to raw bytes only when no start code is found", "an H.265 later frame consisting only of start codes, then finish"),
+ "C13c": ("C13", "sample emission continues after a failed write (errors collected, last one returned)", "a sink that fails exactly one write during sample emission and accepts later ones"),
+ "C14c": ("C14", "Annex B scanner skips 64-byte blocks that contain no 0x01", "a start code straddling a 64-byte block boundary (a unit of 61+ bytes before it)"),
+ "C15c": ("C15", "audio ticks computed relative to the first video frame", "first video frame later than t = 0 with audio"),
+ "C16c": ("C16", "H.265 16-bit length guard no longer covers the PPS", "an H.265 keyframe whose PPS is longer than 65535 bytes"),
+ "C17c": ("C17", "interleave schedule cached in a thread_local keyed by track lengths", "two muxers with equal sample counts but different timestamps finished on the same thread"),
+ "C18c": ("C18", "udta emitted whenever any metadata field is set, even if no item results", "metadata holding only a language"),
+ "C19c": ("C19", "Opus sample entry samplerate = configured rate", "Opus configured with a rate other than 48000"),
+ "C20c": ("C20", "CLI opens the output without truncating", "an output path that already holds a longer file"),
 }
 def main():
     for name,(prop,what,needs) in DESC.items():
